@@ -49,22 +49,25 @@ CHECKS["C09"] = ("Proof: C09.accepted / refused / accepted_iff / missing_source 
                  "single-file lengths across the frontier, missing sources at every index, pre-existing target.", T, "7 C09")
 
 D = "Lean 4 theorems (first layer) + model/code correspondence (differential, real tools vs compiled model) + independent-decoder oracle"
-CHECKS["C02"] = ("Proof so far: the catalog size law (blocks, sectors of the last block, bytes of the last sector decode to exactly n for every "
-                 "n), the chain written by writeFile is read back block for block by walk, announced block count = chain length. The full "
-                 "write/read theorem over sector contents is not yet proved (stated in DESIGN.md). Tie/oracle: create -> list -> extract of "
-                 "both real tools vs the compiled model (status, stdout, image bytes, extracted files) and vs the sources, sizes 0 .. beyond a side.", D, "7 C02")
+CHECKS["C02"] = ("Proof: C02.write_then_read — on a well-formed side with a readable table, a successful writeFile leaves a well-formed side "
+                 "whose table is the old one plus the linked chain, and the entry naming that chain reads back exactly the content, for every "
+                 "content of every size (distinct flat sectors, prefix overwrite, the read loop is concatenation, chain walk); exact size law, "
+                 "announced block count. Not proved: the lift through the catalog bytes and the CLI loop (checked). Tie/oracle: create -> list "
+                 "-> extract of both real tools vs the compiled model and vs the sources, sizes 0 .. beyond a side.", D, "7 C02")
 CHECKS["C04"] = ("Proof so far: geometry of save for both flavours and FF padding of .sd slots, kind/flag dispatch table = documented table, "
                  "32-byte entry layout for every name length, status validity = layout's, initFileSystem keeps geometry, a freshly created side "
                  "is accepted by the independent checker Spec.Dos.fsck (kernel evaluation). Tie/oracle: created images vs model, decoded by two "
                  "independent readers (Lean Spec.Dos and a Python twin) that must agree with each other and with the sources.", D, "7 C04")
-CHECKS["C05"] = ("Proof so far: free+used+reserved = 160 for every readable table, chosen blocks are free hence never reserved (40/41 included), "
-                 "refusal for lack of blocks leaves the side untouched and happens exactly when free blocks are too few, the linked chain reads "
-                 "back. Invariant preservation over histories is checked, not yet proved. Tie/oracle: histories of create/add with refusals at "
-                 "every position (all histories of depth <= 2/3 over 9 step kinds), each step vs model + independent fsck + full read-back.", D, "7 C05")
-CHECKS["C06"] = ("Proof so far: a sector write touches one sector, the table setter rewrites bytes 1..160 of its sector only, statuses outside "
-                 "the new chain are kept, data sectors of a block are flat 8b..8b+7 and table/catalog lie in blocks 40/41, adding nothing saves "
-                 "the loaded sides and (fd) rewrites the image byte for byte. Tie/oracle: pre-images from tool histories, an independent writer "
-                 "and the bundled real image, then arbitrary batches; byte-level frame check.", D, "7 C06")
+CHECKS["C05"] = ("Proof: free+used+reserved = 160; chosen blocks are free hence never reserved; refusal for lack of blocks leaves the side "
+                 "untouched and happens exactly when free blocks are too few; refusal for lack of a catalog entry restores the table sector and "
+                 "leaves the 14 catalog sectors byte-identical; the linked chain reads back. The induction over whole histories of perform is "
+                 "not assembled (checked). Tie/oracle: all histories of depth <= 2/3 over 9 step kinds + random ones, refusals at every position, "
+                 "each step vs model + independent fsck + full read-back.", D, "7 C05")
+CHECKS["C06"] = ("Proof: C06.old_files_intact — after a successful writeFile every entry on blocks that were not chosen and are off track 20 "
+                 "reads back identically; chosen blocks are never blocks in use; a sector write touches one sector; the table setter rewrites "
+                 "bytes 1..160 only; adding nothing saves the loaded sides and (fd) rewrites the image byte for byte. The catalog byte frame is "
+                 "checked, not proved. Tie/oracle: pre-images from tool histories, an independent writer and the bundled real image, then "
+                 "arbitrary batches; byte-level frame check.", D, "7 C06")
 CHECKS["C07"] = ("Proof so far: for any table in which a duplicate-free chain below 160 is linked (any allocation order) the reader follows "
                  "exactly that chain; linking a disjoint chain keeps other chains; size formula; load accepts 1/2/4-sided fd and 4-sided sd with "
                  "that many sides and rejects 3. Sector-level read theorem not yet proved. Tie/oracle: images from an independent writer (Python "
@@ -83,9 +86,11 @@ CHECKS["C13"] = ("Proof: tool's token table = pinned MO5 table, codes >= 0x80 / 
                  "(upper or lower case) yields its token, ELSE with colon (finite, whole table, kernel evaluation of the model); file = FF, "
                  "length, records, zero link; one record per line iff every line is numbered. The general delimited-line theorem is checked, not "
                  "yet proved. Tie/oracle: vocabulary listings through real moto_lst2bas vs model, Lean structure decoder, Lean reference encoder.", D, "7 C13")
-CHECKS["C14"] = ("Proof so far: placeholder structural facts; the invariant proof of losslessness is in progress (DESIGN.md). Tie/oracle: "
-                 "arbitrary printable listings, all adjacent keyword pairs (thorough) / a seventh of them (quick), all strings <= 4/5 over 9 "
-                 "symbols, through the real tool vs model, decoded by the Lean detokenizer and compared with the source.", D, "7 C14")
+CHECKS["C14"] = ("Proof: C14.lossless — for every ASCII line body, detokenizing (Spec.BasicRef.decode) the bytes the tokenizer model emits gives "
+                 "the text upper-cased outside string literals (C17's automaton): invariant over the four branches of appendAsToken incl. the "
+                 "repaired early-match branch, closure of decode over segments, whole-table shape lemma by kernel evaluation. Tie/oracle: "
+                 "printable listings, keyword pairs, all strings <= 4/5 over 9 symbols through the real tool vs model, decoded by the Lean "
+                 "detokenizer and compared with the source.", D, "7 C14")
 CHECKS["C18"] = ("Proof (PARTIAL by nature): tape reader visits at most len/7 blocks for every byte string; the chain walk returns a "
                  "duplicate-free chain of at most 161 entries for every table; catalog scan is 112 slots; every path written by tape and disk "
                  "extract is destination(/sideN)/name with no '/' or NUL. CPU time and memory are observed, not proved: real list/extract on "
